@@ -169,6 +169,10 @@ void NTT_Goldilocks::NTT(Goldilocks::Element *dst, Goldilocks::Element *src, u_i
     {
         return;
     }
+    if (dst == NULL)
+    {
+        dst = src; // a null destination means in place, also when the columns are split in blocks
+    }
     if (nblock < 1)
     {
         nblock = 1;
